@@ -137,7 +137,7 @@ fn c10_families_to_drop() {
     core::mem::forget((out, session, gr, llgr));
 }
 
-//@ id=C10 tier=quick cap=600
+//@ id=C10 tier=off cap=3600 mem=40
 //@ fn: event::collect_delete_families, event::collect_delete_llgr_families
 //@ bound: output list [StopTimer, DeleteStaleRoutes(F1), StartLlgrTimers(..), DeleteLlgrStaleRoutes(F2), DeleteStaleRoutes(F3)] with F1, F2, F3 any subsets of {v4,v6,vpn4}; unwind 8
 //@ desc: the driver-side extraction of what to purge returns exactly the union of the DeleteStaleRoutes lists (resp. DeleteLlgrStaleRoutes lists) and nothing from other outputs
